@@ -64,6 +64,7 @@ type Exec struct {
 	curRets       []*SVal
 	// loop discovery: header -> heap name -> store roots (nil entry = unknown writer)
 	loopRoots map[*ssa.BasicBlock]map[string][]ssa.Value
+	opaque    map[string]*opaqueInfo
 }
 
 type Frame struct {
